@@ -102,3 +102,11 @@ VARIANTS += [
     V("twin-ts-as-tensor", CORE + "sdeint.py", TSCONV, "ts = torch.as_tensor(ts, dtype=y0.dtype, device=y0.device)", expect="silent"),
     V("twin-ts-to-keywords", CORE + "sdeint.py", TSCONV, "ts = torch.tensor(ts, dtype=torch.float64).to(dtype=y0.dtype, device=y0.device)", expect="silent"),
 ]
+
+GUARD = "                if not next_t > curr_t:\n"
+VARIANTS += [
+    # session-4 repair: the stepping loop raises when the trial step cannot advance the clock (the unrepaired code looped)
+    V("clock-guard-removed", BS, GUARD, "                if False:\n", rule="R12.9"),
+    V("clock-guard-strict-only", BS, GUARD, "                if next_t < curr_t:\n", rule="R12.9"),
+    V("twin-clock-guard-spelled-le", BS, GUARD, "                if next_t <= curr_t:\n", expect="silent"),
+]
